@@ -420,6 +420,37 @@ func ruleKA(c *Checker) {
 			c.fail("KA-6", "sites", token.NoPos, fmt.Sprintf("only %d timer operations found", n6))
 		}
 	}
+	// each timer is created with its own period: ping with GetPingTime, pong with GetPongTime, the
+	// resend ticker with GetResendTimeout
+	{
+		fResendT := w.Field("gbn.GoBackNConn.resendTicker")
+		for _, pr := range []struct {
+			f      *types.Var
+			getter string
+		}{{fPing, "GetPingTime"}, {fPong, "GetPongTime"}, {fResendT, "GetResendTimeout"}} {
+			if pr.f == nil {
+				continue
+			}
+			okk, n := true, 0
+			for _, st := range w.Stores(pr.f) {
+				if st.Parent() != start {
+					continue
+				}
+				n++
+				ctorCall, ok := unwrapLoadAlloc(st.Val).(*ssa.Call)
+				if !ok || len(ctorCall.Common().Args) == 0 {
+					okk = false
+					continue
+				}
+				arg, ok := unwrapLoadAlloc(ctorCall.Common().Args[0]).(*ssa.Call)
+				if !ok || arg.Common().StaticCallee() == nil || arg.Common().StaticCallee().Name() != pr.getter {
+					okk = false
+				}
+			}
+			c.decide(okk && n == 1, "KA-2", "start|"+pr.f.Name()+" created with "+pr.getter, start.Pos(), "the timer's period is "+pr.getter+"()",
+				pr.f.Name()+" is not created with the period "+pr.getter+"(): the keepalive (or resend) runs on the wrong clock")
+		}
+	}
 	// start arms ping only
 	c.decide(len(callsOnField(start, fPing, "Resume")) == 1 && len(callsOnField(start, fPong, "Resume")) == 0, "KA-2", "start|ping armed, pong not", start.Pos(),
 		"start resumes the ping ticker only", "start does not arm exactly the ping ticker")
@@ -563,9 +594,17 @@ func ruleKA(c *Checker) {
 		_, _, closeUncond := deferredDone(w, wrapper, fWG, gclose)
 		okWrap = closeUncond
 	}
+	// the wrapper runs the loop once: when it returns (keepalive timeout, transport error) the wrapper
+	// itself returns, which is what runs the deferred Close - a wrapper that calls the loop again
+	// swallows the keepalive timeout
+	if wrapper != nil && len(sites) == 1 {
+		once := !pathExists(sites[0].Instr, sites[0].Instr, nil)
+		c.decide(once, "KA-4", "send-loop wrapper runs the loop once", instrPos(sites[0].Instr), "the call of sendPacketsForever is not inside a cycle of the wrapper",
+			"the wrapper calls sendPacketsForever again after it returned: a keepalive timeout (or any error) never reaches the deferred Close")
+	}
 	c.decide(okWrap && len(sites) == 1, "KA-4", "send-loop wrapper closes the connection", sl.Pos(), "sendPacketsForever runs in a wrapper whose deferred function calls Close() unconditionally",
 		"the keepalive timeout ends the send loop but nothing closes the connection")
-	c.floor("KA-4", 1)
+	c.floor("KA-4", 2)
 	_ = nWaits
 
 	// ---- KA-5: the mailbox enables keepalive on both ends and keeps it across refreshes ----
